@@ -141,11 +141,23 @@ func fn1Str(name string) interface{} {
 		}
 	case "same":
 		return func(x *string) *string { return x } // hands its argument pointer back
+	case "fill":
+		// does not map null to null
+		return func(x *string) *string {
+			r := "N/A"
+			if x != nil {
+				r = *x + "?"
+			}
+			return &r
+		}
 	}
 	return nil
 }
 
 func Fn1(kind Kind, name string) interface{} {
+	if name == "fill" {
+		return fn1Str(name) // a string function whatever the column: a type mismatch on other columns
+	}
 	switch kind {
 	case Int:
 		return fn1Int(name)
@@ -535,6 +547,9 @@ func ApplyOne(f Frame, in Instr, rows []int, d Defects) Frame {
 		}
 		if src.Kind == Undef {
 			return errFrame("undefined column kind")
+		}
+		if arg == "fill" && src.Kind != String && src.Kind != Enum {
+			return errFrame("string function on a %s column", src.Kind)
 		}
 		return mk(fn1ResultKindFor(arg, src.Kind), func(r int) Cell { _, c := applyFn1(src.Kind, arg, src.Cells[r]); return c })
 	case "fn2":
